@@ -436,13 +436,25 @@ def r7(ctx, fs):
     f = fs.fn('ratio::core::sub')
     env = LocalEnv(f)
     okfirst = False
-    for n in f.nodes():
-        if n.get('k') == 'IfStmt':
-            c = show(canon(n['slots']['cond'], env, subst=False))
-            t = [m.get('op') for m in walk(n['slots']['then']) if m.get('k') == 'CXXOperatorCallExpr' and m.get('op') in ('+=', '-=')]
-            e = [m.get('op') for m in walk(n['slots'].get('else')) if m.get('k') == 'CXXOperatorCallExpr' and m.get('op') in ('+=', '-=')]
-            if 'cbegin' in c and c.startswith('(== ') and t == ['+='] and e == ['-=']:
-                okfirst = True
+    # the loop over the operands adds the FIRST one and subtracts the others, however "first" is spelled (iterator == cbegin(), index == 0) and however the if is laid out
+    for lp in f.nodes():
+        if lp.get('k') not in ('ForStmt', 'CXXForRangeStmt', 'WhileStmt'):
+            continue
+        cells = {}
+        for p in enum_paths(lp['slots']['body']):
+            ops = [m.get('op') for st in p.live(env) for m in walk(st) if m.get('k') == 'CXXOperatorCallExpr' and m.get('op') in ('+=', '-=')]
+            first = None
+            for kind, node, pol in p.conds:
+                if kind != 'if':
+                    continue
+                c = canon(node, env, subst=False)
+                if isinstance(c, tuple) and len(c) == 3 and c[0] in ('==', '!='):
+                    is_first_test = any(isinstance(x, tuple) and x[0] == 'mcall' and x[1].rsplit('::', 1)[-1] in ('cbegin', 'begin') for x in c[1:]) or ('num', 0) in c[1:]
+                    if is_first_test:
+                        first = (c[0] == '==') == pol
+            cells[first] = ops
+        if cells.get(True) == ['+='] and cells.get(False) == ['-='] and set(cells) == {True, False}:
+            okfirst = True
     if not okfirst:
         ctx.finding(rid, f.id, 'sub-first', 'core::sub must add its first operand and subtract all the others', loc=f.loc)
 
